@@ -142,7 +142,7 @@ impl Profile {
             // names that differ only in letter case are different names for this server: one such
             // pair in each pool keeps case-folding on a single code path visible everywhere
             nicks: (0..8).map(|i| format!("n{}", i)).chain(std::iter::once("N0".to_string())).collect(),
-            chans: vec!["#c0".into(), "#c1".into(), "#c2".into(), "&l0".into(), "#Mixed".into(), "#mixed".into()],
+            chans: vec!["#c0".into(), "#c1".into(), "#c2".into(), "&l0".into(), "#Mixed".into(), "#mixed".into(), "#do.t".into()],
             max_conns: 6,
             oper_names: vec![],
             reg_passwords: vec![],
@@ -572,7 +572,15 @@ pub fn gen_op(m: &Model, p: &Profile, seed: &OpSeed) -> Option<Op> {
                 if p.reg_passwords.is_empty() {
                     "PASS nopassword".to_string()
                 } else {
-                    format!("PASS {}", p.reg_passwords[s.pick(p.reg_passwords.len())])
+                    // (sent as a trailing parameter; sometimes with a blank added at one end: that is
+                    // a different password)
+                    let pw = p.reg_passwords[s.pick(p.reg_passwords.len())].clone();
+                    match s.pick(8) {
+                        0 => format!("PASS :{} ", pw),
+                        1 => format!("PASS : {}", pw),
+                        2 | 3 => format!("PASS :{}", pw),
+                        _ => format!("PASS {}", pw),
+                    }
                 }
             }
             7 => "CAP LS 302".to_string(),
@@ -717,8 +725,18 @@ pub fn gen_op(m: &Model, p: &Profile, seed: &OpSeed) -> Option<Op> {
             }
         }
         K::Nick => {
-            let k = s.pick(10);
+            let k = if s.chance(4) { 10 } else { s.pick(10) };
             let new = match k {
+                10 => {
+                    // nicks at and just beyond the advertised NICKLEN=200 (the server does not
+                    // enforce a length: both are ordinary, different nicks)
+                    let l200: String = std::iter::repeat('L').take(200).collect();
+                    if m.users.contains_key(&l200) || s.chance(50) {
+                        format!("{}x", l200)
+                    } else {
+                        l200
+                    }
+                }
                 0..=5 => {
                     let free = free_nicks(m, p);
                     if free.is_empty() {
